@@ -301,7 +301,7 @@ def _run_e4(spec):
     boot.boot(lock_shim=True)
     from . import c14
 
-    t0 = time.time()
+    t0 = conc.clock()
     out = {"evaluations": 0, "keys": [], "violations": [], "samples": [], "counters": {}, "strata": {}}
     c = out["counters"]
     keys = set()
@@ -311,7 +311,7 @@ def _run_e4(spec):
         todo = (c14.make_prog({**spec, "seed": spec["seed"] + 7919}, i)
                 for i in range(spec["start"], spec["start"] + spec["count"]))
     for prog, meta, r in todo:
-        if time.time() - t0 > E4_BUDGET[spec["tier"]]:
+        if conc.clock() - t0 > E4_BUDGET[spec["tier"]]:
             c["budget_cut_programs"] = c.get("budget_cut_programs", 0) + 1
             continue
         runner = conc.ProgramRunner(prog, watch_fs=True)
